@@ -144,7 +144,7 @@ fn semantic_equal(db: &Db, a: &Config, b: &Config) -> Result<(), String> {
     Ok(())
 }
 
-fn run_history(h: &E2eHistory, c03: bool, obs: &mut Obs) {
+fn run_history(h: &E2eHistory, c03: bool, runner: crate::fullrun::Runner, obs: &mut Obs) {
     let names: Vec<String> = h
         .history
         .names
@@ -172,7 +172,7 @@ fn run_history(h: &E2eHistory, c03: bool, obs: &mut Obs) {
         };
         // port 1 on loopback: nothing listens there
         let port = if down { 1 } else { irrd.port };
-        let result = full_run(&fake, ("127.0.0.1", port), "bgpfu");
+        let result = crate::fullrun::agent_run(runner, &fake, ("127.0.0.1", port), "bgpfu");
         let (after, loads) = {
             let f = fake.lock().unwrap();
             (f.ephemeral.clone(), f.loads.clone())
@@ -309,7 +309,7 @@ fn run_history(h: &E2eHistory, c03: bool, obs: &mut Obs) {
             None => obs.fail("read-back-stuck", format!("run {r}")),
         }
         // idempotence
-        let again = full_run(&fake, ("127.0.0.1", irrd.port), "bgpfu");
+        let again = crate::fullrun::agent_run(runner, &fake, ("127.0.0.1", irrd.port), "bgpfu");
         let after2 = fake.lock().unwrap().ephemeral.clone();
         match again {
             RunResult::Ok => {
@@ -349,12 +349,15 @@ fn e2e_history_strategy(max_runs: usize) -> BoxedStrategy<E2eHistory> {
         .boxed()
 }
 
-pub struct C01Full;
+pub struct C01Full(pub crate::fullrun::Runner);
 
 impl Prop for C01Full {
     type Case = E2eHistory;
     fn name(&self) -> &'static str {
-        "full-run-histories"
+        match self.0 {
+            crate::fullrun::Runner::Hook => "full-run-histories",
+            crate::fullrun::Runner::Binary => "binary-histories",
+        }
     }
     fn rule(&self) -> String {
         "histories of 1..4 real agent runs (Updater::run on a multi-thread runtime: real session, \
@@ -369,14 +372,17 @@ impl Prop for C01Full {
             .into()
     }
     fn cases(&self, tier: Tier) -> u32 {
-        tier.pick(1_500, 60_000)
+        match self.0 {
+            crate::fullrun::Runner::Hook => tier.pick(1_500, 60_000),
+            crate::fullrun::Runner::Binary => tier.pick(60, 3_000),
+        }
     }
     fn strategy(&self, tier: Tier) -> BoxedStrategy<E2eHistory> {
         e2e_history_strategy(tier.pick(3, 5))
     }
     fn check(&self, h: &E2eHistory) -> Obs {
         let mut obs = Obs::default();
-        run_history(h, false, &mut obs);
+        run_history(h, false, self.0, &mut obs);
         obs
     }
 }
@@ -404,7 +410,7 @@ impl Prop for C03Full {
     }
     fn check(&self, h: &E2eHistory) -> Obs {
         let mut obs = Obs::default();
-        run_history(h, true, &mut obs);
+        run_history(h, true, crate::fullrun::Runner::Hook, &mut obs);
         obs
     }
 }
